@@ -37,6 +37,17 @@ RULE_TEXT = ("sites: arms of get_node_restrictions; every f_min/f_max comparison
              "the Raman gate in set_one_amplifier; the two candidate list constructions and three filters")
 
 
+def match_target(gen, b):
+    """comprehension `for V_n, V_a in equipment['Edfa'].items()`: bind the model variable"""
+    from ..pattern import match
+    import ast as _a
+    pat = _a.parse("[0 for V_n, V_a in equipment['Edfa'].items()]", mode='eval').body.generators[0]
+    r = match(pat.target, gen.target, b)
+    if r is None or _a.unparse(gen.iter) != "equipment['Edfa'].items()":
+        return None
+    return r
+
+
 def r1_precedence(ctx):
     repo = ctx.repo
     f = repo.func(NW, 'get_node_restrictions')
@@ -47,31 +58,48 @@ def r1_precedence(ctx):
         any(isinstance(x, ast.Return) and ast.unparse(x.value) == '[node.params.type_variety]' for x in first.body)
     ctx.check('R1.precedence', f'{s} own variety first', ok, key(f, 'own-first'),
               'an amplifier with an imposed model does not get exactly that model before any other restriction is considered')
+    from ..pattern import mstmt, mexpr, find
+    nd, pv, nx = f.params[0], f.params[1], f.params[2]
+    init = [(x, b) for x in body for b in [mstmt('V_r = []', x)] if b is not None]
+    ctx.check('R1.precedence', f'{s} default', len(init) == 1, key(f, 'default'), 'restrictions do not start empty (allowed_for_design fall-back)')
+    rv = init[0][1]['V_r'] if len(init) == 1 else None
     chain = next((x for x in body if isinstance(x, ast.If) and 'variety_list' in ast.unparse(x.test) and x is not first), None)
     order = []
     cur = chain
     while isinstance(cur, ast.If):
         t = ast.unparse(cur.test)
-        v = next((ast.unparse(a.value) for a in cur.body if isinstance(a, ast.Assign) and ast.unparse(a.targets[0]) == 'restrictions'), None)
+        v = next((ast.unparse(a.value) for a in cur.body if isinstance(a, ast.Assign) and ast.unparse(a.targets[0]) == rv), None)
         order.append((t, v))
         cur = cur.orelse[0] if len(cur.orelse) == 1 and isinstance(cur.orelse[0], ast.If) else None
-    want = [('node.variety_list', 'node.variety_list'),
-            ('isinstance(prev_node, elements.Roadm)', "prev_node.restrictions['booster_variety_list']"),
-            ('isinstance(next_node, elements.Roadm)', "next_node.restrictions['preamp_variety_list']")]
+    want = [(f'{nd}.variety_list', f'{nd}.variety_list'),
+            (f'isinstance({pv}, elements.Roadm)', f"{pv}.restrictions['booster_variety_list']"),
+            (f'isinstance({nx}, elements.Roadm)', f"{nx}.restrictions['preamp_variety_list']")]
     ok = len(order) == 3 and all(w[0] in t and v == w[1] and (w[1] in t) for (t, v), w in zip(order, want))
     ctx.check('R1.precedence', f'{s} order of sources', ok, key(f, 'order'),
               'restriction sources are not consulted as: own variety list, then booster list of the PREVIOUS ROADM, then preamp list '
               'of the NEXT ROADM (each only when non-empty)', f'{order}')
-    init = [x for x in body if isinstance(x, ast.Assign) and ast.unparse(x) == 'restrictions = []']
-    ctx.check('R1.precedence', f'{s} default', bool(init), key(f, 'default'), 'restrictions do not start empty (allowed_for_design fall-back)')
     comps = [n for n in walk_no_nested(f.node) if isinstance(n, ast.ListComp) and 'allowed_for_design' in ast.unparse(n)]
+    kinds = set()
     for c in comps:
         t = ast.unparse(c)
-        ok = 'n in restrictions or (not restrictions and a.allowed_for_design)' in t.replace('\n', ' ')
+        g = c.generators[0]
+        b = mexpr("V_n", c.elt)
+        b = b and match_target(g, b)
+        def flat(x):
+            return [y for v in x.values for y in flat(v)] if isinstance(x, ast.BoolOp) and isinstance(x.op, ast.And) else [x]
+        conj = [y for i_ in g.ifs for y in flat(i_)]
+        ok = False
+        if b:
+            b['V_r'] = rv
+            ok = any(mexpr('V_n in V_r or (not V_r and V_a.allowed_for_design)', x, b) is not None for x in conj)
+            for x in conj:
+                if mexpr("V_a.type_def == 'multi_band'", x, b) is not None:
+                    kinds.add('==')
+                if mexpr("V_a.type_def != 'multi_band'", x, b) is not None:
+                    kinds.add('!=')
         ctx.check('R1.precedence', f'{site(f, c)} permitted set', ok, key(f, f'permitted|{c.lineno - f.node.lineno}'),
                   'the permitted set is not (members of a non-empty restriction) or (with no restriction, models allowed for design)', t[:160])
-    kinds = ["a.type_def == 'multi_band'", "a.type_def != 'multi_band'"]
-    ok = len(comps) == 2 and all(any(k in ast.unparse(c) for c in comps) for k in kinds)
+    ok = len(comps) == 2 and kinds == {'==', '!='}
     ctx.check('R1.precedence', f'{s} single / multi band arms', ok, key(f, 'arms'),
               'single-band amplifiers are not restricted to non multi-band models and multi-band ones to multi-band models')
     ctx.need('R1.precedence', 6)
@@ -138,28 +166,56 @@ def r3_selection(ctx):
         lst = stmt_of(f, fl[0]).targets[0].id
         ok = ast.unparse(mn[0].args[0]) == lst and ast.unparse(kwarg(mn[0], 'key')) in ("attrgetter('nf')", 'lambda x: x.nf')
         args = [ast.unparse(a) for a in fl[0].args]
-        ok = ok and args[:4] == ['uid', 'edfa_eqpt', 'power_target', 'gain_target'] and 'target_extended_gain' in args and 'raman_allowed' in args
+        P = f.params
+        ok = ok and args[:4] == [P[P.index('uid')], P[P.index('edfa_eqpt')], P[P.index('power_target')], P[P.index('gain_target')]] and \
+            'target_extended_gain' in args and 'raman_allowed' in args
     ctx.check('R3.selection', f'{s} quietest capable', bool(ok), key(f, 'min-nf'),
               'the selected model is not the minimum-NF entry of the list filtered on the required gain and power')
+    from ..pattern import mstmt, mexpr, find
     rets = [n for n in walk_no_nested(f.node) if isinstance(n, ast.Return)]
     sel = stmt_of(f, mn[0]).targets[0].id if mn else None
-    ok = bool(rets) and sel is not None and ast.unparse(rets[-1].value) == f'({sel}.variety, power_reduction)'
-    pr = [n for n in walk_no_nested(f.node) if isinstance(n, ast.Assign) and ast.unparse(n.targets[0]) == 'power_reduction']
-    ok = ok and len(pr) == 1 and ast.unparse(pr[0].value).replace(' ', '') in (f'min({sel}.power,0.0)', f'min(0.0,{sel}.power)', f'min({sel}.power,0)')
+    b = mstmt('return V_sel.variety, V_pr', rets[-1], {'V_sel': sel}) if rets and sel else None
+    ok = b is not None
+    if ok:
+        pr = [n for n in walk_no_nested(f.node) if isinstance(n, ast.Assign) and ast.unparse(n.targets[0]) == b['V_pr']]
+        ok = len(pr) == 1 and ast.unparse(pr[0].value).replace(' ', '') in (f'min({sel}.power,0.0)', f'min(0.0,{sel}.power)', f'min({sel}.power,0)',
+                                                                              f'min(0,{sel}.power)')
     ctx.check('R3.selection', f'{s} result', ok, key(f, 'result'),
               'select_edfa does not return the selected model with a power reduction of min(its power margin, 0)')
     so = repo.func(NW, 'set_one_amplifier')
     sc = calls_to(so, {'select_edfa'})
     ok = len(sc) == 1
     if ok:
-        args = [ast.unparse(a) for a in sc[0].args]
-        ok = args[:4] == ['raman_allowed', 'gain_target', 'power_target', 'edfa_eqpt'] and \
-            ast.unparse(kwarg(sc[0], 'target_extended_gain')) == "equipment['Span']['default'].target_extended_gain"
-        defs = [n for n in walk_no_nested(so.node) if isinstance(n, ast.Assign) and ast.unparse(n.targets[0]) == 'edfa_eqpt']
-        txt = ' | '.join(ast.unparse(d.value) for d in defs)
-        ok = ok and "a.type_def != 'multi_band'" in txt and 'if n in restrictions' in txt and len(defs) == 2
-        g_if = enclosing(defs[1], ast.If) if len(defs) == 2 else None
-        ok = ok and g_if is not None and ast.unparse(g_if.test) == 'restrictions'
+        # the targets handed over are the ones computed by compute_gain_power_and_tilt_target (positions of its result)
+        cg = calls_to(so, {'compute_gain_power_and_tilt_target'})
+        tg = stmt_of(so, cg[0]).targets[0] if len(cg) == 1 and isinstance(stmt_of(so, cg[0]), ast.Assign) else None
+        cgf = repo.func(NW, 'compute_gain_power_and_tilt_target')
+        cret = [n.value for n in walk_no_nested(cgf.node) if isinstance(n, ast.Return) and isinstance(n.value, ast.Tuple)]
+        names_ret = [ast.unparse(e) for e in cret[0].elts] if len(cret) == 1 else []
+
+        def role(pred):
+            hit = [k_ for k_, nm in enumerate(names_ret) if any(
+                isinstance(n, ast.Assign) and isinstance(n.targets[0], ast.Name) and n.targets[0].id == nm and pred(n.value)
+                for n in walk_no_nested(cgf.node))]
+            return hit[0] if len(hit) == 1 else None
+        i_gain = role(lambda v: ast.unparse(v) == f'{cgf.params[0]}.effective_gain')
+        i_pow = role(lambda v: isinstance(v, ast.BinOp) and isinstance(v.op, ast.Add) and 'pref_total_db' in names_in(v))
+        ok = isinstance(tg, ast.Tuple) and len(tg.elts) == len(names_ret) and i_gain is not None and i_pow is not None
+        if ok:
+            gt, pt = ast.unparse(tg.elts[i_gain]), ast.unparse(tg.elts[i_pow])
+            args = [ast.unparse(a) for a in sc[0].args]
+            ra = [n for n in walk_no_nested(so.node) if isinstance(n, ast.Assign) and ast.unparse(n.targets[0]) == args[0]]
+            ok = len(args) >= 4 and args[1:3] == [gt, pt] and len(ra) >= 2 and \
+                ast.unparse(kwarg(sc[0], 'target_extended_gain')) == "equipment['Span']['default'].target_extended_gain"
+            defs = [n for n in walk_no_nested(so.node) if isinstance(n, ast.Assign) and ast.unparse(n.targets[0]) == args[3]] if ok else []
+            rs = calls_to(so, {'get_node_restrictions'})
+            rname = stmt_of(so, rs[0]).targets[0].id if len(rs) == 1 and isinstance(stmt_of(so, rs[0]), ast.Assign) else \
+                ('restrictions' if 'restrictions' in so.params else None)
+            ok = ok and len(defs) == 2 and rname is not None and \
+                mexpr("{V_n: V_a for V_n, V_a in equipment['Edfa'].items() if V_a.type_def != 'multi_band'}", defs[0].value) is not None and \
+                mexpr(f"{{V_n: V_a for V_n, V_a in {args[3]}.items() if V_n in {rname}}}", defs[1].value) is not None
+            g_if = enclosing(defs[1], ast.If) if len(defs) == 2 else None
+            ok = ok and g_if is not None and ast.unparse(g_if.test) == rname
     ctx.check('R3.selection', f'{site(so)} permitted set handed over', bool(ok), key(so, 'permitted-set'),
               'select_edfa does not receive (library minus multi-band models, intersected with the restrictions when there are any), '
               'the gain/power targets and the configured extended-gain allowance')
@@ -195,11 +251,16 @@ def r4_raman_gate(ctx):
               'Raman eligibility is not: previous element is a fibre AND its loss coefficient is below max_fiber_lineic_loss_for_raman '
               '(x 1e-3) at every frequency it is defined on; otherwise not allowed', det)
     fl = repo.func(NW, 'filter_edfa_list_based_on_targets')
-    rl = [n for n in walk_no_nested(fl.node) if isinstance(n, ast.Assign) and ast.unparse(n.targets[0]) == 'raman_list']
-    ok = len(rl) == 1 and isinstance(rl[0].value, ast.IfExp) and ast.unparse(rl[0].value.test) == 'raman_allowed' and \
-        ast.unparse(rl[0].value.orelse) == '[]' and 'if edfa.raman' in ast.unparse(rl[0].value.body)
-    el = [n for n in walk_no_nested(fl.node) if isinstance(n, ast.Assign) and ast.unparse(n.targets[0]) == 'edfa_list']
-    ok = ok and len(el) == 1 and 'if not edfa.raman' in ast.unparse(el[0].value)
+    # the two candidate comprehensions: over (name, model) pairs, filtered on model.raman / not model.raman
+    comps = [n for n in walk_no_nested(fl.node) if isinstance(n, ast.ListComp) and len(n.generators) == 1 and
+             isinstance(n.generators[0].target, ast.Tuple) and len(n.generators[0].target.elts) == 2 and len(n.generators[0].ifs) == 1]
+    ram = [c for c in comps if ast.unparse(c.generators[0].ifs[0]) == f'{ast.unparse(c.generators[0].target.elts[1])}.raman']
+    pla = [c for c in comps if ast.unparse(c.generators[0].ifs[0]) == f'not {ast.unparse(c.generators[0].target.elts[1])}.raman']
+    ok = len(ram) == 1 and len(pla) == 1
+    if ok:
+        par = getattr(ram[0], '_parent', None)
+        ok = isinstance(par, ast.IfExp) and par.body is ram[0] and ast.unparse(par.test) == 'raman_allowed' and ast.unparse(par.orelse) == '[]'
+        ok = ok and not isinstance(getattr(pla[0], '_parent', None), ast.IfExp)
     ctx.check('R4.raman-gate', site(fl), ok, key(fl, 'raman-list'),
               'Raman models are not confined to the Raman list, or that list is not empty when Raman is not allowed')
     ctx.need('R4.raman-gate', 2)
@@ -208,32 +269,45 @@ def r4_raman_gate(ctx):
 def r5_capability(ctx):
     repo = ctx.repo
     f = repo.func(NW, 'filter_edfa_list_based_on_targets')
-    ctors = calls_to(f, {'Edfa_list'})
-    ctors = [c for c in ctors if c.keywords]
+    # the candidate record type: module level or a local namedtuple
+    rec = {n.targets[0].id for n in walk_no_nested(f.node) if isinstance(n, ast.Assign) and isinstance(n.targets[0], ast.Name)
+           and isinstance(n.value, ast.Call) and ast.unparse(n.value.func) in ('namedtuple', 'collections.namedtuple')} | {'Edfa_list'}
+    ctors = [c for c in calls_to(f, rec) if c.keywords and {'power', 'gain_min', 'nf'} <= {k.arg for k in c.keywords}]
     if len(ctors) != 2:
         raise AnchorMissing('filter_edfa_list_based_on_targets: the two candidate list constructions')
     ev = Evaluator(repo, f, no_inline={'edfa_nf'})
-    env = {p: Rat.sym(p) for p in f.params}
-    env['pin'] = None
-    pin_def = [n for n in walk_no_nested(f.node) if isinstance(n, ast.Assign) and ast.unparse(n.targets[0]) == 'pin']
-    st = State(dict(env))
-    ok = len(pin_def) == 1
-    if ok:
-        st.env['pin'] = ev.ev(pin_def[0].value, st)
-        ok = st.env['pin'].eq(Rat.sym('power_target') - Rat.sym('gain_target'))
-    ctx.check('R5.capability', f'{site(f)} input power', ok, key(f, 'pin'), 'pin is not power_target - gain_target')
-    st.env['edfa'] = Rat.sym('edfa')
-    st.env['edfa_variety'] = Rat.sym('edfa_variety')
+    st = State({p: Rat.sym(p) for p in f.params})
+    # straight-line scalar locals defined before the lists (pin = power_target - gain_target)
+    pin_names = []
+    for n in f.node.body:
+        if isinstance(n, ast.Assign) and isinstance(n.targets[0], ast.Name) and isinstance(n.value, ast.BinOp):
+            try:
+                st.env[n.targets[0].id] = ev.ev(n.value, st)
+            except CannotAnalyse:
+                continue
+            if isinstance(st.env[n.targets[0].id], Rat) and st.env[n.targets[0].id].eq(Rat.sym('power_target') - Rat.sym('gain_target')):
+                pin_names.append(n.targets[0].id)
+    ok = len(pin_names) == 1 and all(pin_names[0] in names_in(kwarg(c, 'power')) for c in ctors)
+    ctx.check('R5.capability', f'{site(f)} input power', ok, key(f, 'pin'), 'the input power used by the score is not power_target - gain_target')
     E = lambda a: Rat.of(mk_atom('fld', f'edfa.{a}'))
-    want_power = lem_min(st.env['pin'] + E('gain_flatmax') + Rat.sym('target_extended_gain'), E('p_max')) - Rat.sym('power_target') \
-        if ok else None
+    want_power = lem_min(Rat.sym('power_target') - Rat.sym('gain_target') + E('gain_flatmax') + Rat.sym('target_extended_gain'), E('p_max')) \
+        - Rat.sym('power_target')
+    lib = f.params[f.params.index('edfa_eqpt')] if 'edfa_eqpt' in f.params else None
     for c in ctors:
         comp = enclosing(c, ast.ListComp)
-        raman = comp is not None and any(ast.unparse(i) == 'edfa.raman' for g in comp.generators for i in g.ifs)
+        g = comp.generators[0] if comp is not None and len(comp.generators) == 1 else None
+        if g is None or not (isinstance(g.target, ast.Tuple) and len(g.target.elts) == 2 and all(isinstance(e, ast.Name) for e in g.target.elts)):
+            raise CannotAnalyse('candidate list is not a comprehension over (name, model) pairs')
+        vname, model = g.target.elts[0].id, g.target.elts[1].id
+        st.env[model] = Rat.sym('edfa')
+        st.env[vname] = Rat.sym('edfa_variety')
+        raman = any(ast.unparse(i) == f'{model}.raman' for i in g.ifs)
+        plain = any(ast.unparse(i) == f'not {model}.raman' for i in g.ifs)
         label = 'Raman list' if raman else 'EDFA list'
+        c._is_raman, c._is_plain = raman, plain
         kw = {k.arg: k.value for k in c.keywords}
         p = ev.ev(kw['power'], st) if 'power' in kw else None
-        ctx.check('R5.capability', f'{site(f, c)} {label} power score', want_power is not None and isinstance(p, Rat) and p.eq(want_power),
+        ctx.check('R5.capability', f'{site(f, c)} {label} power score', isinstance(p, Rat) and p.eq(want_power),
                   key(f, f'power|{label}'),
                   'the capability score is not min(pin + gain_flatmax + extended gain allowance, p_max) - power_target', vkey(p)[:200])
         gm = ev.ev(kw['gain_min'], st) if 'gain_min' in kw else None
@@ -243,10 +317,17 @@ def r5_capability(ctx):
                   f'the minimum-gain margin is not gain_target {"" if raman else "+ 3 "}- gain_min', vkey(gm)[:120])
         nf = kw.get('nf')
         ctx.check('R5.capability', f'{site(f, c)} {label} NF at the required gain', nf is not None and
-                  ast.unparse(nf) == 'edfa_nf(gain_target, edfa_eqpt[edfa_variety])', key(f, f'nf|{label}'),
+                  ast.unparse(nf) == f'edfa_nf(gain_target, {lib}[{vname}])', key(f, f'nf|{label}'),
                   'candidates are not ranked by their NF at the required gain')
-        it = comp.generators[0] if comp is not None else None
-        ctx.check('R5.capability', f'{site(f, c)} {label} over the permitted set', it is not None and ast.unparse(it.iter) == 'edfa_dict.items()',
+        # iterated: the permitted set itself or a plain copy of it
+        it = g.iter
+        src = ast.unparse(it.func.value) if isinstance(it, ast.Call) and isinstance(it.func, ast.Attribute) and it.func.attr == 'items' else None
+        from ..pattern import mexpr
+        copies = {n.targets[0].id for n in walk_no_nested(f.node) if isinstance(n, ast.Assign) and isinstance(n.targets[0], ast.Name) and (
+            mexpr(f'{{V_k: V_v for V_k, V_v in {lib}.items()}}', n.value) is not None or
+            mexpr(f'{{V_k: V_v for (V_k, V_v) in {lib}.items()}}', n.value) is not None or
+            ast.unparse(n.value) in (f'dict({lib})', f'{lib}.copy()', lib))}
+        ctx.check('R5.capability', f'{site(f, c)} {label} over the permitted set', src is not None and (src == lib or src in copies),
                   key(f, f'iter|{label}'), 'the candidate list is not built from every permitted model')
     # the successive filters, followed through the local definitions (names are free to change)
     defs = local_defs(f.node)
@@ -299,7 +380,7 @@ def r5_capability(ctx):
     ctx.check('R5.capability', f'{site(f)} merge', ok, key(f, 'filter|merge'), 'the candidates are not the EDFA list plus the Raman list')
     # gain fall-back keeps EDFAs only, and raises when there is none
     alt = [ast.unparse(v) for _, v in defs.get(L2, []) if isinstance(v, ast.Name)] if L2 else []
-    edfa_name = next((n for n in lists if any('not edfa.raman' in ast.unparse(v) for _, v in defs.get(n, []) if isinstance(v, ast.AST))), None)
+    edfa_name = next((stmt_of(f, c).targets[0].id for c in ctors if getattr(c, '_is_plain', False) and isinstance(stmt_of(f, c), ast.Assign)), None)
     ctx.check('R5.capability', f'{site(f)} below every minimum gain', alt == [edfa_name] and
               any(isinstance(n, ast.Raise) and 'ConfigurationError' in ast.unparse(n) for n in walk_no_nested(f.node)), key(f, 'filter|gain-fallback'),
               'when the required gain is below every model\'s minimum gain the EDFA candidates are not kept (Raman excluded), or an '
